@@ -16,6 +16,10 @@ pub type Cfb = CompoundFile<Io>;
 
 #[derive(Clone, Debug, Default)]
 pub struct Oracles {
+    /// C18: a freshly created object is dropped and the bytes opened again before the
+    /// history starts (what the real-file run does after cfb::create(path)), so that all
+    /// compared runs perform the same sequence of library calls
+    pub reopen_after_create: bool,
     /// C07: a stream with an open handle may be removed; the handle is kept (detached) and
     /// used later - it must touch nothing. No stream is created while such a handle exists.
     pub stale_handles: bool,
@@ -288,7 +292,15 @@ impl Engine {
         let cfb = if precreated {
             guard("open", || open_options(max_buf, false).open_with(io))?.map_err(|e| Fail::new("mismatch|open|after_cfb_create|Ok|Err", format!("opening the file made by cfb::create failed: {}", e)))?
         } else {
-            guard("create", || Self::create_lib(io, version, max_buf))?.map_err(|e| Fail::new("mismatch|create|fresh|Ok|Err", format!("create failed: {}", e)))?
+            let reopen = if oracles.reopen_after_create { Some(io.peer_ctl()) } else { None };
+            let made = guard("create", || Self::create_lib(io, version, max_buf))?.map_err(|e| Fail::new("mismatch|create|fresh|Ok|Err", format!("create failed: {}", e)))?;
+            match reopen {
+                None => made,
+                Some(again) => {
+                    guard("drop", move || drop(made))?;
+                    guard("open", || open_options(max_buf, false).open_with(again))?.map_err(|e| Fail::new("mismatch|open|after_create|Ok|Err", format!("opening the freshly created file failed: {}", e)))?
+                }
+            }
         };
         Ok(Engine {
             cfb: Some(cfb),
